@@ -4,6 +4,7 @@ package main
 // the growing list of definitions, assumptions and obligations.
 
 import (
+	"regexp"
 	"fmt"
 	"go/types"
 	"sort"
@@ -64,6 +65,8 @@ type Ctx struct {
 	usedSpec    bool
 
 	typeIDs  map[string]int
+	typeList []types.Type
+	implUFs  []implUF
 	funcIDs  map[string]int
 	funcByID map[int]interface{}
 	strIDs   map[string]int
@@ -462,14 +465,69 @@ func (c *Ctx) AddCover(name string, fn string, pc Term) *Obligation {
 	return o
 }
 
+var aliasByte = regexp.MustCompile(`\bbyte\b`)
+var aliasRune = regexp.MustCompile(`\brune\b`)
+
+// typeKey is a canonical text for identical types ([]byte and []uint8 get the same dynamic type ID).
+func typeKey(t types.Type) string {
+	return aliasRune.ReplaceAllString(aliasByte.ReplaceAllString(t.String(), "uint8"), "int32")
+}
+
 func (c *Ctx) TypeID(t types.Type) int {
-	k := t.String()
+	k := typeKey(t)
 	id, ok := c.typeIDs[k]
 	if !ok {
 		id = len(c.typeIDs) + 1
 		c.typeIDs[k] = id
+		c.typeList = append(c.typeList, t)
+		for _, u := range c.implUFs {
+			c.implAxiom(u, t, id)
+		}
 	}
 	return id
+}
+
+// implUF is the uninterpreted predicate "dynamic type implements interface I", axiomatised for every concrete type
+// the run has given an ID (other IDs stay unconstrained: either answer is possible for an unknown dynamic type).
+type implUF struct {
+	Name  string
+	Iface types.Type
+}
+
+func (c *Ctx) implAxiom(u implUF, t types.Type, id int) {
+	if _, isIface := t.Underlying().(*types.Interface); isIface {
+		return
+	}
+	it, _ := u.Iface.Underlying().(*types.Interface)
+	if it == nil {
+		return
+	}
+	v := "false"
+	if types.Implements(t, it) {
+		v = "true"
+	}
+	c.DeclOnce(fmt.Sprintf("(assert (= (%s #x%08x) %s))", u.Name, id, v))
+}
+
+// Implements returns the term "the dynamic type typ (a type ID) implements interface type at".
+func (c *Ctx) Implements(typ Term, at types.Type) Term {
+	name := "impl_" + sanitizeFile(at.String())
+	found := false
+	for _, u := range c.implUFs {
+		if u.Name == name {
+			found = true
+		}
+	}
+	if !found {
+		u := implUF{Name: name, Iface: at}
+		c.implUFs = append(c.implUFs, u)
+		c.DeclOnce(fmt.Sprintf("(declare-fun %s ((_ BitVec 32)) Bool)", name))
+		c.DeclOnce(fmt.Sprintf("(assert (not (%s #x00000000)))", name))
+		for _, t := range c.typeList {
+			c.implAxiom(u, t, c.typeIDs[typeKey(t)])
+		}
+	}
+	return App(SBool, name, typ)
 }
 
 // Script builds the SMT-LIB text for one obligation instance.
